@@ -472,8 +472,7 @@ def literal_relational(chk):
     rb = [p for i, p, o in realB if o.kind == "raise"]
     if ra and rb:
         chk.add(Ob(func, "cover", "link", link + ra[0].hyps + rb[0].hyps, z3.BoolVal(True), expect="sat"))
-    else:
-        chk.errors.append("literal_relational: no rejecting path pair to anchor the vacuity cover")
+    chk.add(Ob(func, "a-rejecting-path-pair-exists-to-anchor-the-vacuity-cover", "any", [], z3.BoolVal(bool(ra and rb))))
 
 
 def _literal_pair(chk, func, ia, pa, oa, ib, pb, ob_, link):
